@@ -26,6 +26,9 @@ def obligations(tier):
     obs.append(Ob('O6.5-tables', 'fn', 'harness.tables:audit_date_tables', timeout=t,
                   descr='audit (concrete, not a solver verdict): English month_of_year / day_of_month / day_of_week tables against calendar',
                   encodes=[]))
+    obs.append(Ob('O6.5-tables-cultures', 'fn', 'harness.tables:audit_culture_tables', slices=[{'lang': l} for l in ('spanish', 'french', 'portuguese', 'german', 'italian', 'dutch')], timeout=t,
+                  descr='audit (concrete, not a solver verdict): MonthOfYear / DayOfMonth / DayOfWeek tables of es, fr, pt, de, it, nl against independent month and weekday name lists',
+                  encodes=[]))
     L = 'harness.layouts:'
     dl = [{'kind': 'date', 'culture': 'en-us', 'layout': l} for l in ('iso', 'slash', 'dash', 'month-d-y', 'month-dth-y', 'd-month-y', 'dth-of-month-y')]
     dl += [{'kind': 'date', 'culture': c, 'layout': l} for c in ('es-es', 'fr-fr', 'pt-br', 'de-de', 'it-it') for l in ('iso', 'slash', 'dash')]
